@@ -272,6 +272,8 @@ pub trait TooDeeOpsMut<T> : TooDeeOps<T> + IndexMut<usize,Output=[T]>  + IndexMu
     /// assert_eq!(toodee[(0, 2)], 1);
     /// ```
     fn swap_rows(&mut self, mut r1: usize, mut r2: usize) {
+        let num_rows = self.num_rows();
+        assert!(r1 < num_rows && r2 < num_rows);
         if r1 == r2 {
             return;
         }
